@@ -1,7 +1,7 @@
 // C03 driver (real threads, real library): bodies throw; the waiting call must rethrow exactly one exception that was actually thrown,
 // only after every body of the group has stopped; nothing starts afterwards; functor copies are destroyed exactly once; the group is reusable.
 //   args: P seed n scenario nthrow     scenario: 0 task_group | 1 parallel_for | 2 parallel_reduce | 3 parallel_for_each | 4 parallel_invoke |
-//                                                5 parallel_pipeline | 6 flow graph | 7 task_arena::execute | 8 nested parallel_for in task_group
+//                                                5 parallel_pipeline | 6 flow graph | 7 task_arena::execute | 8 nested parallel_for in task_group | 9 400 warm rounds, simultaneous throwers
 //   output: CAUGHT k (number of exceptions delivered to the caller, must be 1 if any thrower ran else 0) BADVALUE RUNNINGATRETURN STARTEDAFTER LEAK NOTREUSABLE THROWERS k
 #include "common.h"
 #include <random>
@@ -20,7 +20,10 @@ using namespace vh;
 
 static std::atomic<long> g_running{0}, g_started{0}, g_live{0}, g_threw{0};
 static std::set<int> g_throwers; static std::mutex g_m; static std::set<int> g_thrown;
-struct Ex { int id; };
+static std::atomic<long> g_exlive{0}, g_arrived{0}; static int g_rdv = 0;
+struct Ex {      // instance-counted: every exception object the library copies/stores must be destroyed exactly once
+    int id; explicit Ex(int i) : id(i) { g_exlive++; } Ex(const Ex& o) : id(o.id) { g_exlive++; } ~Ex() { g_exlive--; }
+};
 struct Probe {      // functor payload: counts live copies
     Probe() { g_live++; } Probe(const Probe&) { g_live++; } Probe(Probe&&) noexcept { g_live++; } ~Probe() { g_live--; }
 };
@@ -28,7 +31,11 @@ static void body(int i) {
     g_started++; g_running++;
     for (volatile int k = 0; k < 200 + (i % 5) * 300; ++k) {}
     bool th; { std::lock_guard<std::mutex> l(g_m); th = g_throwers.count(i) != 0; if (th) g_thrown.insert(i); }
-    if (th) { g_threw++; g_running--; throw Ex{i}; }
+    if (th) {
+        // throwers meet (bounded wait) so that several catch blocks of the dispatch loop run at almost the same time
+        g_arrived++; for (int k = 0; k < 2000000 && g_arrived.load() < g_rdv; ++k) {}
+        g_threw++; g_running--; throw Ex(i);
+    }
     g_running--;
 }
 
@@ -37,6 +44,7 @@ int main(int argc, char** argv) {
     Watchdog wd(60.0); Out o; wd.arm(&o);
     tbb::global_control gc(tbb::global_control::max_allowed_parallelism, P);
     std::mt19937 r(seed); while ((int)g_throwers.size() < nthrow && (int)g_throwers.size() < n) g_throwers.insert(r() % n);
+    g_rdv = std::min(nthrow, std::max(1, P));
     long caught = 0, badvalue = 0, running_at_return = 0, started_after = 0, notreusable = 0;
     auto guard = [&](auto&& f) {
         try { f(); } catch (Ex& e) { caught++; std::lock_guard<std::mutex> l(g_m); if (!g_thrown.count(e.id)) badvalue++; } catch (...) { caught++; badvalue++; }
@@ -72,6 +80,21 @@ int main(int argc, char** argv) {
             tbb::task_arena a(std::max(1, P / 2));
             guard([&] { a.execute([&] { tbb::parallel_for(0, n, [pr](int i) { body(i); }); }); });
             int ok = 0; a.execute([&] { ok = 1; }); if (!ok) notreusable++;
+        } else if (sc == 9) {
+            // many rounds in one process (workers are warm): nthrow bodies of one group throw at the same moment, alternating
+            // task_group and parallel_for with an explicit context; after each round every exception object must be gone
+            tbb::parallel_for(0, 2000, [](int) { for (volatile int k = 0; k < 2000; ++k) {} });
+            long leaks = 0;
+            for (int round = 0; round < 400; ++round) {
+                g_arrived = 0; g_threw = 0; { std::lock_guard<std::mutex> l(g_m); g_thrown.clear(); g_throwers.clear(); for (int i = 0; i < nthrow; ++i) g_throwers.insert(i); }
+                long c0 = caught;
+                if (round % 2 == 0) { tbb::task_group tg; guard([&] { for (int i = 0; i < n; ++i) tg.run([i, pr] { body(i); }); tg.wait(); }); }
+                else { tbb::task_group_context ctx; guard([&] { tbb::parallel_for(0, n, [pr](int i) { body(i); }, tbb::simple_partitioner(), ctx); }); }
+                if (caught - c0 != 1) badvalue++;
+                if (g_exlive.load() != 0) { leaks++; g_exlive = 0; }
+            }
+            caught = (g_threw.load() > 0 ? 1 : 0);        // per-round delivery was checked above
+            g_exlive = leaks;
         } else {
             tbb::task_group tg;
             guard([&] { for (int t = 0; t < 4; ++t) tg.run([t, n, pr] { tbb::parallel_for(t * n / 4, (t + 1) * n / 4, [pr](int i) { body(i); }); }); tg.wait(); });
@@ -79,6 +102,6 @@ int main(int argc, char** argv) {
     }
     wd.disarm();
     long expect = g_threw.load() > 0 ? 1 : 0;
-    std::printf("CAUGHTDIFF %ld BADVALUE %ld RUNNINGATRETURN %ld STARTEDAFTER %ld LEAK %ld NOTREUSABLE %ld\n", caught - expect, badvalue, running_at_return, started_after, g_live.load(), notreusable);
+    std::printf("CAUGHTDIFF %ld BADVALUE %ld RUNNINGATRETURN %ld STARTEDAFTER %ld LEAK %ld NOTREUSABLE %ld EXCLEAK %ld\n", caught - expect, badvalue, running_at_return, started_after, g_live.load(), notreusable, g_exlive.load());
     return 0;
 }
